@@ -258,8 +258,8 @@ func (e *Engine) frameObligations(a *act, fr *frameInfo, exit *State, reach Term
 	}
 	sort.Strings(names)
 	for _, h := range names {
-		if fr.wild[h] {
-			continue
+		if fr.wild[h] || strings.HasPrefix(h, "G_") {
+			continue // ghost families describe library objects' abstract state, not program memory
 		}
 		srt := c.heapSorts[h]
 		h0 := e.heapGet(a.entry, h, srt)
